@@ -16,7 +16,7 @@ import (
 // bytes, or nil when the mutation does not apply to this transaction.
 var Mutations = []string{
 	"payload", "feePrice", "feeGas", "feeCurrency", "memo", "type", "substKey", "flipSig", "dropSigner",
-	"addSigner", "swapSigners", "changeAlg", "resignOtherKey", "unsigned", "dupCoSigner",
+	"addSigner", "swapSigners", "changeAlg", "resignOtherKey", "unsigned", "dupCoSigner", "algBtcec", "algEthsecp",
 }
 
 func reserialize(st action.SignedTx) []byte {
@@ -99,6 +99,14 @@ func (g *Genesis) Mutate(bt *Built, m string, pos int, other *Account) []byte {
 		} else {
 			pk.KeyType = keys.ED25519
 		}
+		st.Signatures[pos].Signer = pk
+	case "algBtcec", "algEthsecp":
+		// the same key bytes under one of the chain's other public-key types
+		if st.Type == action.OLVM {
+			return nil // see substKey
+		}
+		pk := st.Signatures[pos].Signer
+		pk.KeyType = map[string]keys.Algorithm{"algBtcec": keys.BTCECSECP, "algEthsecp": keys.ETHSECP}[m]
 		st.Signatures[pos].Signer = pk
 	case "resignOtherKey":
 		st.Signatures[pos] = action.Signature{Signer: other.Pub, Signed: other.Sign(st.RawTx.RawBytes())}
